@@ -7,6 +7,7 @@ package main
 import (
 	"bufio"
 	"bytes"
+	"encoding/json"
 	"flag"
 	"fmt"
 	"io"
@@ -15,6 +16,8 @@ import (
 	"net"
 	"net/http"
 	"net/http/httptest"
+	"os"
+	"os/exec"
 	"sort"
 	"strings"
 	"time"
@@ -202,6 +205,13 @@ func main() {
 	out := flag.String("out", "", "output jsonl")
 	replay := flag.String("replay", "", "replay file")
 	flag.Parse()
+	if *profile == "view" && os.Getenv("ADMINDRIVE_CHILD") == "" {
+		// the view profile runs nsqadmin in-process: a panic in one of its goroutines would take
+		// the driver down with it.  Run it in a child; if the child dies, report the cluster it
+		// was working on as a case in which nsqadmin did not survive.
+		runViewSupervised(*out)
+		return
+	}
 	o := lib.NewOut(*out)
 	defer o.Close()
 	r := lib.NewRand(*seed)
@@ -218,4 +228,83 @@ func main() {
 	default:
 		lib.Fatalf("unknown profile %q", *profile)
 	}
+}
+
+// markCurrent records the input the in-process run is about to work on (child side).
+func markCurrent(in interface{}) {
+	if p := os.Getenv("ADMINDRIVE_MARK"); p != "" {
+		b, _ := json.Marshal(in)
+		os.WriteFile(p, b, 0o644)
+	}
+}
+
+func runViewSupervised(out string) {
+	dir, err := os.MkdirTemp(os.Getenv("VERIF_SCRATCH"), "admindrive-view-")
+	if err != nil {
+		lib.Fatalf("mkdtemp: %v", err)
+	}
+	defer os.RemoveAll(dir)
+	childOut, mark := dir+"/cases.jsonl", dir+"/mark.json"
+	var args []string
+	skip := false
+	for _, a := range os.Args[1:] {
+		if skip {
+			skip = false
+			continue
+		}
+		if a == "-out" || a == "--out" {
+			skip = true
+			continue
+		}
+		if strings.HasPrefix(a, "-out=") || strings.HasPrefix(a, "--out=") {
+			continue
+		}
+		args = append(args, a)
+	}
+	cmd := exec.Command(os.Args[0], append(args, "-out", childOut)...)
+	cmd.Env = append(os.Environ(), "ADMINDRIVE_CHILD=1", "ADMINDRIVE_MARK="+mark)
+	var stderr bytes.Buffer
+	cmd.Stderr = &stderr
+	runErr := cmd.Run()
+	o := lib.NewOut(out)
+	defer o.Close()
+	if f, err := os.Open(childOut); err == nil {
+		sc := bufio.NewScanner(f)
+		sc.Buffer(make([]byte, 1<<20), 1<<28)
+		for sc.Scan() {
+			line := sc.Bytes()
+			var c lib.Case
+			if json.Unmarshal(line, &c) == nil && c.Coq != "" {
+				o.Emit(c)
+				continue
+			}
+			var st struct {
+				Stat  string      `json:"stat"`
+				Value interface{} `json:"value"`
+			}
+			if json.Unmarshal(line, &st) == nil && st.Stat != "" {
+				o.Stat(st.Stat, st.Value)
+			}
+		}
+		f.Close()
+	}
+	if runErr == nil {
+		return
+	}
+	if ee, ok := runErr.(*exec.ExitError); ok && ee.ExitCode() == 3 {
+		// the child's own HARNESS-ERROR
+		os.Stderr.Write(stderr.Bytes())
+		os.Exit(3)
+	}
+	var in interface{}
+	if b, err := os.ReadFile(mark); err == nil {
+		json.Unmarshal(b, &in)
+	}
+	tail := stderr.String()
+	if len(tail) > 1500 {
+		tail = tail[:1500]
+	}
+	o.Emit(lib.Case{Name: "in-process-nsqadmin-died", Coq: "(J18.CAlive false false)", Input: in,
+		Tags: []string{"view=crash", "alive=false"}, Nontrivial: true,
+		Obs:  map[string]interface{}{"alive": false, "child_exit": runErr.Error(), "stderr": tail}})
 }
